@@ -14,8 +14,8 @@ def run(ctx):
     if not q:
         ctx.model_check("MC_Walk", "selftest_noprogress", constants=W.consts("CandFQ", "RootF", 2, "{1,2}", True, '{"strict"}', PinNoProgress=True),
                         invariants=W.INV_FAULTY, constraints=["NreqCap"], expect=["NoReask", "Bounded"])
-    # nested universe: the agent may answer with the object above the requested instance (a proper prefix of the requested OID)
-    ctx.model_check("MC_Walk", "faulty_nested", constants=W.consts("CandFN", "RootF", 2, "{0,1,2}", True, '{"strict","warn"}'),
+    # nested universe: the agent may answer with the object above the requested instance (a proper prefix of the requested OID) or the walk root itself
+    ctx.model_check("MC_Walk", "faulty_nested", constants=W.consts("CandFN", "RootF", 2, "{0,1,2}", True, '{"strict","warn"}', FaultyRange=("<-", "FRangeN")),
                     invariants=W.INV_FAULTY, constraints=["NreqCap"], must_cover=["Round", "Done"], timeout=3000)
     rnd = random.Random(ctx.seed)
     scs = W.gen(ctx, "faulty")
@@ -23,7 +23,7 @@ def run(ctx):
     S = []
     for sc in nested:
         for b in (0, 1, 2):
-            if rnd.random() > (0.12 if q else 0.6):
+            if rnd.random() > (0.05 if q else 0.3):
                 continue
             n = len(sc["roots"])
             if b == 0:
@@ -47,7 +47,7 @@ def run(ctx):
             S.append(dict(sc, bulk=b, api=api, errors=errors, proto="v2c", budget=40, deep=(api == "bulktable")))
     ctx.rule = ("every stateless faulty agent F: requested OID -> OID | endOfMibView over the %d-OID universe x root lists x "
                 "{GETNEXT, bulk 1, bulk 2} x {strict, lenient (GETNEXT walks and multiwalk with the GETBULK fetcher)}, plus every F over a nested universe "
-                "{1.1, 1.1.1, 2.1} (roots 1, 2) whose answers may be proper prefixes of the requested OID (sampled in quick), applied reactively by the reference agent under a request budget; "
+                "{1.1, 1.1.1, 2.1} (roots 1, 2) whose answers may be proper prefixes of the requested OID or the root itself (sampled), applied reactively by the reference agent under a request budget; "
                 "non-trivial = >= 2 requests and >= 1 instance") % (5 if q else 6)
     ctx.exhaustive = not q
     W.drive_and_judge(ctx, S)
